@@ -131,6 +131,9 @@ func Unpack(buf []byte, dotu bool) (fc *Fcall, fcsz int, err error) {
 		fc.Fid, p = gint32(p)
 		fc.Newfid, p = gint32(p)
 		m, p = gint16(p)
+		if len(p) < int(m)*2 {
+			goto szerror
+		}
 		fc.Wname = make([]string, m)
 		for i := 0; i < int(m); i++ {
 			fc.Wname[i], p = gstr(p)
@@ -141,6 +144,9 @@ func Unpack(buf []byte, dotu bool) (fc *Fcall, fcsz int, err error) {
 
 	case Rwalk:
 		m, p = gint16(p)
+		if len(p) < int(m)*13 {
+			goto szerror
+		}
 		fc.Wqid = make([]Qid, m)
 		for i := 0; i < int(m); i++ {
 			p = gqid(p, &fc.Wqid[i])
